@@ -46,8 +46,13 @@ def _instances(tier, seed):
                         continue
                     out.append(dict(name="quat/%s/%s/%s%s" % (mob, ig, opt, "/interp" if rep else ""), args=["quat", mob, ig, opt, str(ns)] + ([rep] if rep else []),
                                     base_points=(2 if (not th or ig != "ExplicitEuler") else 4) if opt == "force" else 1, paths=1 if opt == "force" else (2 if not th else 10), flips_per_path=(2 if not th else 3),
-                                    seedcase=(None if ig == "ExplicitEuler" else dict(h=0.5, u0=1.5, u1=-2.0, u2=1.0)),
+                                    seedcase=(None if ig == "ExplicitEuler" else dict(h=0.5, u0=1.5, u1=-2.0, u2=1.0) if ig == "RungeKuttaMerson"
+                                              else dict(h=0.1875, u0=0.75, u1=-1.0, u2=0.5)),
                                     max_terms=(3000 if opt == "force" else 40000), abstract_big=True, pc_max_terms=(1 if opt == "force" else (6000 if ig == "ExplicitEuler" else 1500))))
+        if ig == "RungeKuttaMerson":
+            # known finding: with the step size pinned at the user minimum a DAE step that failed to converge (projection refused) is accepted
+            out.append(dict(name="quat/Ball/Verlet/force/minstep", args=["quat", "Ball", "Verlet", "force", "1"], base_points=1, paths=1,
+                            seedcase=dict(h=0.5, u0=1.5, u1=-2.0, u2=1.0), max_terms=3000, abstract_big=True, pc_max_terms=1))
         for mo in ("steady", "sinP", "sinV"):
             for rep in ("step", "interp"):
                 out.append(dict(name="presc/%s/%s/%s" % (mo, ig, rep), args=["presc", mo, ig, rep], base_points=1 if not th else 2, paths=1, max_terms=4000,
@@ -69,6 +74,7 @@ def adjust_seeds(inst, seeds, angle_pins, rng, g):
     for k, v in (inst.get("seedcase") or {}).items():
         if k in seeds:
             seeds[k] = v * (1 + 0.25 * g)
+
 
 
 def free_sets(inst, tr, tier, rng):
@@ -115,6 +121,17 @@ def obligations(enc, inst, tr):
     return (ob_quat if inst["args"][0] == "quat" else ob_presc)(enc, inst, tr)
 
 
+def find_literal(enc, p):
+    """index of a path-condition literal whose polynomial is p up to a constant factor, else None"""
+    if not p:
+        return None
+    key = P.key(P.monic(p)[1])
+    for idx, c in enc.path_condition():
+        if c.p and P.key(P.monic(c.p)[1]) == key:
+            return idx
+    return None
+
+
 def ob_quat(enc, inst, tr):
     R = enc.ring
     o = enc.out
@@ -135,17 +152,20 @@ def ob_quat(enc, inst, tr):
         if opt == "force" or normalised:
             # (the refutable twin |q|^2 = 2 is only asked where the coefficients are short: with pinned multi-stage data the satisfiable query
             #  over algebraic numbers with thousands of digits takes minutes)
-            obs.append(eq(enc, "%s: quaternion has exactly unit norm%s" % (what, "" if opt == "force" else " (normalised on this path)"), n2, P.const(1),
-                          twin=(a[2] == "ExplicitEuler")))
+            ob = eq(enc, "%s: quaternion has exactly unit norm%s" % (what, "" if opt == "force" else " (normalised on this path)"), n2, P.const(1),
+                    twin=(a[2] == "ExplicitEuler"))
+            ob.pc_only = set()          # an identity of the normalisation: no path literal needed
+            obs.append(ob)
         else:
             qe = o("qerr%d" % c)
             q1 = P.add(qe, P.const(1))
-            obs.append(Ob("%s: reported quaternion error is |q| - 1" % what, [Constraint(1, P.sub(R.mul(q1, q1), n2), "(qerr+1)^2=|q|^2")]))
-            obs.append(Ob("%s: 1 + qerr >= 0" % what, [Constraint(3, q1, "qerr+1>=0")]))
+            obs.append(Ob("%s: reported quaternion error is |q| - 1" % what, [Constraint(1, P.sub(R.mul(q1, q1), n2), "(qerr+1)^2=|q|^2")], pc_only=set()))
+            obs.append(Ob("%s: 1 + qerr >= 0" % what, [Constraint(3, q1, "qerr+1>=0")], pc_only=set()))
             # |qerr| as the code forms it (RMS norm of the single quaternion error = sqrt(qerr^2)): the same algebraic number as in the path literal
             absq = enc.root(R.mul(qe, qe), 2, abs(R.evalf(qe, enc.vals)))
+            lit = find_literal(enc, P.sub(absq, tol))   # the code's own comparison of this error with the tolerance, if it is on the path
             obs.append(Ob("%s: quaternion error |qerr| = sqrt(qerr^2) within the constraint tolerance in use (not normalised on this path)" % what,
-                          [Constraint(5, P.sub(absq, tol), "|qerr|<=tol")],
+                          [Constraint(5, P.sub(absq, tol), "|qerr|<=tol")], pc_only=(None if lit is None else {lit}),
                           twin=([Constraint(5, P.sub(absq, P.scale(tol, Fraction(1, 1000))), "[twin: within tol/1000]")]
                                 if any(R.kind[v] == "free" and R.names[v] != "x_tol" for v in R.vars_of(n2)) else None)))
     return obs
